@@ -673,6 +673,7 @@ pub fn check_tampered(text: &str, cfg: Cfg, tamper: Option<&dyn Fn(&str) -> Opti
     let k7 = "C11-K7-fmt-skip-attribute-with-inner-whitespace";
     let k8 = "C11-K8-merge-reorders-equal-use-items";
     let k9 = "C11-K9-empty-comment-line-merged-away";
+    let k10 = "C11-K10-tab-after-slashes";
     // K3 with a `/` operator before the glued comment: `8 /` + `// c` reads as `8` + `/// c`
     let n_div = |v: &[Item]| v.iter().filter(|x| matches!(x, Item::Tok(t) if t == "TerminalDiv:/")).count();
     let k3_slash = n_div(&in_items) > n_div(&out_items) && cm_out.iter().any(|co| {
@@ -789,8 +790,16 @@ pub fn check_tampered(text: &str, cfg: Cfg, tamper: Option<&dyn Fn(&str) -> Opti
         // ... the K3 family at large: the input has a comment in the middle of a construct (not behind
         // `, ; { } ( [`), where the formatter has no stable place for it (a trailing comment becomes a
         // leading one or the reverse between passes, the following token is re-indented or re-broken)
+        //     - only when a comment stands within three lines of the first difference.
         if sig.is_empty() && n_mid_in > 0 {
-            sig.push(k3);
+            let near = |ls: &[&str]| -> bool {
+                let lo = i.saturating_sub(3);
+                let hi = (i + 4).min(ls.len());
+                lo < hi && ls[lo..hi].iter().any(|l| l.contains("//"))
+            };
+            if near(&l1) || near(&l2) {
+                sig.push(k3);
+            }
         }
         v.fails.push((
             "not-idempotent",
@@ -833,6 +842,33 @@ pub fn check_tampered(text: &str, cfg: Cfg, tamper: Option<&dyn Fn(&str) -> Opti
                 sig.push(k3);
             } else if empties(&mo) < empties(&mi) && words_only(&mi) == words_only(&mo) {
                 sig.push(k9);
+            } else {
+                // K10: a TAB (any whitespace but a space) directly behind the comment prefix: Display's
+                // trim() drops it and the word is glued to the prefix ("//<TAB>/x" -> "///x"): the words
+                // agree once the prefix characters are ignored
+                let tab_after_prefix = cm_in.iter().any(|c| {
+                    let r = c.trim_start_matches('/').trim_start_matches('!');
+                    r.chars().next().map(|ch| ch.is_whitespace() && ch != ' ').unwrap_or(false)
+                });
+                let strip = |v: &[Item]| -> Vec<String> {
+                    let mut r: Vec<String> = v
+                        .iter()
+                        .filter_map(|x| match x {
+                            Item::Cw(_, w) => {
+                                let z = w.trim_start_matches(['/', '!']).to_string();
+                                if z.is_empty() { None } else { Some(z) }
+                            }
+                            _ => None,
+                        })
+                        .collect();
+                    if cfg.reorders() {
+                        r.sort();
+                    }
+                    r
+                };
+                if tab_after_prefix && strip(&mi) == strip(&mo) {
+                    sig.push(k10);
+                }
             }
             v.fails.push(("comments-changed", first_diff(&mi, &mo), sig.join(" ")));
         } else if !cfg.reorders() && li != lo && si == so {
@@ -913,7 +949,16 @@ pub fn tamper(kind: &str, out: &str) -> Option<String> {
             Some(rebuild(k, lines[k].replacen("// ", "/// ", 1)))
         }
         "trailing-space" => {
-            let k = lines.iter().position(|l| !l.trim().is_empty() && !l.trim_start().starts_with("//"))?;
+            // a code line with no comment on it or within four lines of it (trailing spaces inside a
+            // comment are kept by the formatter; failures next to comments may be attributed to K3);
+            // `#[cairofmt::skip]` regions keep their text raw
+            if out.contains("cairofmt") {
+                return None;
+            }
+            let k = (0..lines.len()).find(|&k| {
+                !lines[k].trim().is_empty()
+                    && (k.saturating_sub(4)..(k + 5).min(lines.len())).all(|j| !lines[j].contains("//"))
+            })?;
             Some(rebuild(k, format!("{}  ", lines[k])))
         }
         "drop-comma-of-1-tuple" => {
